@@ -99,6 +99,24 @@ def run_check(prop, tier='quick', seed=0, jobs=None, verbose=False):
         pool.map(astdb.load_tu_quiet, tus)
     with mp.Pool(jobs, maxtasksperchild=1) as pool:
         results = pool.map(_work, [(k, seed, timeout_ms, known) for k in keys], chunksize=1)
+    # an obligation left undecided is re-tried once with another seed and twice the time before anything is
+    # concluded from it (unstable queries must not turn into alarms)
+    retry = [r['key'] for r in results if r['status'] == 'ok' and any(o['status'] == 'unknown' for o in r['obligations'])]
+    if retry:
+        with mp.Pool(min(jobs, len(retry)), maxtasksperchild=1) as pool:
+            again = pool.map(_work, [(k, seed + 101, timeout_ms * 2, known) for k in retry], chunksize=1)
+        byk = {r['key']: r for r in again}
+        for r in results:
+            a = byk.get(r['key'])
+            if a is None or a['status'] != 'ok':
+                continue
+            st2 = {}
+            for o in a['obligations']:
+                st2.setdefault(o['name'], []).append(o['status'])
+            for o in r['obligations']:
+                if o['status'] == 'unknown' and st2.get(o['name']) and all(x == 'discharged' for x in st2[o['name']]):
+                    o['status'] = 'discharged'
+                    o['detail'] = (o['detail'] + ' (discharged on retry with seed+101, 2x time)').strip()
     return finish(prop, tier, seed, results, known, time.time() - t0, verbose)
 
 
